@@ -388,10 +388,12 @@ impl<'a> FormatFields<'a> for JsonFields {
         // then, we could store fields as JSON values, and add to them
         // without having to parse and re-serialize.
         let mut new = String::new();
-        let map: BTreeMap<&'_ str, serde_json::Value> =
+        // The keys are deserialized into owned strings: a field name that
+        // needs escaping in JSON cannot be borrowed from the serialized form.
+        let map: BTreeMap<String, serde_json::Value> =
             serde_json::from_str(current).map_err(|_| fmt::Error)?;
         let mut v = JsonVisitor::new(&mut new);
-        v.values = map;
+        v.values = map.iter().map(|(k, v)| (k.as_str(), v.clone())).collect();
         fields.record(&mut v);
         v.finish()?;
         current.fields = new;
